@@ -66,6 +66,8 @@ func main() {
 		importerMode(r, sk)
 	case "roles":
 		rolesMode(r, sk)
+	case "progress":
+		progressMode(r, sk)
 	default:
 		fmt.Fprintln(os.Stderr, "unknown mode", r.Mode)
 		os.Exit(2)
